@@ -785,6 +785,16 @@ static long do_call(jv *c, jv **extra)
     free(es);
     return r;
   }
+  if (!strcmp(fn, "run0")) { /* reproc_run: no sinks */
+    uint8_t *inbuf;
+    reproc_options op = mk_options(j_get(c, "o"), h, &inbuf);
+    const char **argv = strarr(j_get(c, "argv"));
+    pending_term[h] = (int) j_int(c, "term", TERM_IGN);
+    if (opt_cxx) skip_script("reproc::run(arguments, options) is exercised through C19's mapping check");
+    K->in_api = 1; r = reproc_run(argv, op); K->in_api = 0;
+    free(inbuf); free(argv);
+    return r;
+  }
   if (!strcmp(fn, "drain") || !strcmp(fn, "run")) {
     struct recsink so, se;
     char *s1 = NULL, *s2 = NULL;
